@@ -113,12 +113,13 @@ type l1Client struct {
 }
 
 type l1World struct {
-	env     *cluster.Env
-	col     string
-	keys    []*l1Key
-	clients []*l1Client
-	labels  map[string]bool
-	reqs    int
+	env         *cluster.Env
+	col         string
+	aliasSuffix string
+	keys        []*l1Key
+	clients     []*l1Client
+	labels      map[string]bool
+	reqs        int
 	// every operation accepted by the server per DUID: "cuid:seq" -> op (from requests answered ok)
 	accepted map[string]map[string]*model.Operation
 	// every operation that was part of any request handed to the server, whatever the answer:
@@ -187,7 +188,8 @@ func newL1World(idseed uint64, kinds []sim.Kind) (*l1World, error) {
 		return nil, err
 	}
 	l1Seq++
-	w := &l1World{env: env, col: fmt.Sprintf("col%d", l1Seq), labels: map[string]bool{}, accepted: map[string]map[string]*model.Operation{}, sentAny: map[string]bool{}, waitBG: true}
+	w := &l1World{env: env, col: fmt.Sprintf("col%d", l1Seq) + l1NameSuffix(idseed/13, true), labels: map[string]bool{}, accepted: map[string]map[string]*model.Operation{}, sentAny: map[string]bool{}, waitBG: true}
+	w.aliasSuffix = l1NameSuffix(idseed/11, false)
 	// known finding S14: the first two collections both get number 1; a dummy collection takes the first
 	if err := env.CreateCollection(fmt.Sprintf("dummy%d", l1Seq)); err != nil {
 		env.Close()
@@ -199,15 +201,28 @@ func newL1World(idseed uint64, kinds []sim.Kind) (*l1World, error) {
 	}
 	for i, k := range kinds {
 		// keys are unique per case: the server's lock table is process global
-		w.keys = append(w.keys, &l1Key{Name: fmt.Sprintf("k%d_%d", l1Seq, i), Kind: k})
+		w.keys = append(w.keys, &l1Key{Name: fmt.Sprintf("k%d_%d", l1Seq, i) + l1NameSuffix(idseed/7+uint64(i), false), Kind: k})
 	}
 	return w, nil
+}
+
+// l1NameSuffix makes the names of collections, clients and keys vary with the drawn id seed (which
+// shrinks towards the plain names): names are free text for orda - long ones, multi-byte ones, ones
+// with blanks and punctuation are as legal as "k1" (they end up in log tags, lock names, MQTT topics,
+// MongoDB ids). Characters with a meaning of their own in MQTT topics (/ # +) and MongoDB collection
+// names ($ and NUL) are left out.
+func l1NameSuffix(x uint64, collection bool) string {
+	pool := []string{"", "", "-a-rather-long-name-of-more-than-forty-characters", "문서문서문서문서문서", " список покупок", "買い物リスト", "étè,a;b c", " 50%? \"q\""}
+	if collection {
+		pool = pool[:6]
+	}
+	return pool[x%uint64(len(pool))]
 }
 
 func (w *l1World) close() { w.env.Close() }
 
 func (w *l1World) addClient() (*l1Client, error) {
-	pc, err := w.env.NewPackClient(w.col, fmt.Sprintf("c%d", len(w.clients)))
+	pc, err := w.env.NewPackClient(w.col, fmt.Sprintf("c%d", len(w.clients))+w.aliasSuffix)
 	if err != nil {
 		return nil, err
 	}
